@@ -56,6 +56,15 @@ var c01Check = register("C01", "c01.encode", func(c *encCase) error {
 	if got != want {
 		return failf(sig+" retained", "the sentence returned by NewMnemonicByEntropy(%x, %s) changed after a later call: it now reads %q", []byte(c.Entropy), l, got)
 	}
+	// the same buffer refilled in place and passed again (callers recycle entropy buffers)
+	buf := append([]byte(nil), c.Entropy...)
+	implEncode(buf, implLang[l])
+	for i := range buf {
+		buf[i] = buf[i]*31 + byte(i) + 7
+	}
+	if again, err2, p2 := implEncode(buf, implLang[l]); p2 != nil || err2 != nil || again != ref.Encode(buf, l) {
+		return failf(sig+" reused-buffer", "after NewMnemonicByEntropy(%x, %s) the caller refilled the same buffer with %x and called again: got (%q, %v, panic=%v), BIP39 says %q", []byte(c.Entropy), l, buf, again, err2, p2, ref.Encode(buf, l))
+	}
 	// the structural reading of the property's last sentence, independent of the lists
 	sep := l.Sep()
 	toks := strings.Split(got, sep)
